@@ -28,6 +28,7 @@ def shards(tier, seed):
         out.append({"name": "scale-" + cls, "kind": "scale", "cls": cls, "after_history": cls in ("Major", "Dorian", "Chromatic", "HarmonicMinor"),
                     "acc": 2 if tier == "quick" else 3,
                     "octaves": [1, 2, 3] if tier == "quick" else [1, 2, 3, 4, 5, 6], "weight": 3})
+    out.append({"name": "cold-order", "kind": "cold", "weight": 3})
     out.append({"name": "equality", "kind": "eq", "weight": 2})
     n = 2000 if tier == "quick" else 60000
     parts = 8 if tier == "quick" else 16
@@ -159,6 +160,36 @@ def run(shard, ctx):
         sc = build(ctx, cls, t0, 1, (3, 7) if cls == "Diatonic" else None)
         if sc is not None:
             ctx.sample({"class": cls, "tonic": t0, "ascending": sc.ascending(), "descending": sc.descending()})
+    elif kind == "cold":
+        # which family a fresh interpreter meets first: a minor-family scale before the scales of its relative major, and the
+        # reverse, each order in its own forked child (seed C05-11A: a key table filled for the relative key on first use)
+        from rv.props.c15 import forked
+        pairs = []
+        for (nm, sig, mode) in T.KEYS:
+            if mode == "major":
+                rel = [k[0] for k in T.KEYS if k[1] == sig and k[2] == "minor"]
+                if rel:
+                    pairs.append((nm, rel[0][0].upper() + rel[0][1:]))
+        MAJ = ["Major", "HarmonicMajor", "Ionian", "Lydian"]
+        MIN = ["NaturalMinor", "HarmonicMinor", "MelodicMinor", "Aeolian"]
+
+        def trial(sub, first, second):
+            check_scale(sub, first[0], first[1], 1)
+            for c in second[0]:
+                for octv in (1, 2):
+                    check_scale(sub, c, second[1], octv)
+            return True
+
+        n = 0
+        rng = ctx.rng("cold")
+        for (M, m) in pairs:
+            for first, second in (((rng.choice(MIN), m), (MAJ, M)), ((rng.choice(MAJ), M), (MIN, m))):
+                r = forked(ctx, trial, first, second)
+                ctx.check("cold: the trial ran to its end in a fresh child", r is True, {"first": first, "then": second}, True, repr(r),
+                          mechanism="cold-trial")
+                ctx.case(("cold", first, second[1]), nontrivial=True)
+                n += 1
+        ctx.sample({"pairs": pairs[:4], "trials": n})
     elif kind == "eq":
         objs = []
         for cls in HEPTA + ["WholeTone", "Octatonic"]:
